@@ -84,8 +84,12 @@ class Header:
 # Programmatically define headers:
 
 
-def mk_header(name, fields):
-    """Create a type which can parse this kind of header"""
+def mk_header(name, fields, byte_order="<"):
+    """Create a type which can parse this kind of header
+
+    byte_order is "<" for little endian fields, ">" for big endian fields.
+    """
+    fields = [field.with_byte_order(byte_order) for field in fields]
     members = {"_fields": fields}
     size = 0
     for field in fields:
@@ -167,6 +171,10 @@ class HeaderField(property):
 
         super().__init__(fget, fset)
 
+    def with_byte_order(self, byte_order):
+        """Get this field for the given byte order"""
+        return self
+
 
 class Const(HeaderField):
     def __init__(self, value):
@@ -226,9 +234,13 @@ def Uint64(name=None):
 class FormatField(HeaderField):
     """Field which uses ``struct`` to pack and unpack data"""
 
-    def __init__(self, name, fmt):
-        self.packer = struct.Struct(fmt)
+    def __init__(self, name, fmt, byte_order="<"):
+        self.fmt = fmt
+        self.packer = struct.Struct(byte_order + fmt)
         super().__init__(name=name, size=self.packer.size)
+
+    def with_byte_order(self, byte_order):
+        return FormatField(self.name, self.fmt, byte_order)
 
     def encode(self, value):
         return self.packer.pack(value)
